@@ -23,7 +23,7 @@ elsewhere = [s for s in ind if not own(s).get("verdict", "").startswith("CAUGHT"
 notcaught = [s for s in ind if not any(r.get("verdict", "").startswith("CAUGHT") for r in s.get("caught", {}).values())]
 hist = [s for s in ind if any("history" in r for r in s.get("caught", {}).values())]
 out += ["### Seeded changes: summary\n",
-        "%d changes written by independent sub-agents (given only a property's text and a scratch worktree; two rounds, the second told which code sites the first had used) and %d original defects (reverse of each `fix:` commit). Every one was confirmed in a scratch worktree: applies, the pinned suite still passes (235 + 49), the demonstration fails with it and passes without." % (len(ind), len(orig)),
+        "%d changes written by independent sub-agents (given only a property's text and a scratch worktree; three rounds - four per property in the first two, a fifth for C06, C09, C11, C12, C13, C16 in the third - the later rounds told which code sites the earlier ones had used) and %d original defects (reverse of each `fix:` commit). Every one was confirmed in a scratch worktree: applies, the pinned suite still passes (235 + 49), the demonstration fails with it and passes without." % (len(ind), len(orig)),
         "Final state: %d of the %d independent changes are reported as a reproducing `VIOLATION` by the quick tier of the check of the property they were written against, %d more by the check that owns the behaviour they actually break (%s), %d are not reported as a violation (%s). All %d original defects are caught." % (
             len(caught_own), len(ind), len(elsewhere), ", ".join(s["dir"] for s in elsewhere) or "-", len(notcaught), ", ".join(s["dir"] for s in notcaught) or "-", len(orig)),
         "**%d of the independent changes were missed (exit 0 or exit 2) by the checks as they stood when the change was first run**; each led to new harnesses or a driver change, listed as `history` in the change's `meta.json` and under the property below: %s.\n" % (len(hist), ", ".join(s["dir"] for s in hist))]
